@@ -10,6 +10,7 @@ import numpy as np
 from symfc.basis_sets import FCBasisSetO2
 from symfc.utils.eig_tools import dot_product_sparse
 from symfc.utils.solver_funcs import get_batch_slice, solve_linear_equation
+from symfc.utils._verif_hooks import verif_int
 
 from .solver_base import FCSolverBase
 
@@ -170,6 +171,7 @@ def prepare_normal_equation_O2(
     n_compr_fc2 = compact_compress_mat_fc2.shape[1]
 
     n_batch = 1
+    n_batch = min(N, verif_int("SYMFC_VERIF_SOLVER_NBATCH", n_batch))
     begin_batch_atom, end_batch_atom = get_batch_slice(N, N // n_batch)
     begin_batch, end_batch = get_batch_slice(disps.shape[0], batch_size)
 
